@@ -127,8 +127,11 @@ func VH_C20_Step() {
 	switch op {
 	case 0: // Set, followed by the pruning goroutine it may have spawned
 		k := vhKeys[vh.Choice("key", n)]
+		t0 := vclock.LastNs()
 		c.Set(k, &vhItem{id: k})
 		vh.Assert(vhHas(c, k), "C20.set-present")
+		// a Set is a use: the entry's last-use instant is the clock reading of the Set
+		vh.Assert(vclock.Ns(c.entries[k].used) >= t0 && c.entries[k].value.id == k, "C20.set-counts-as-use")
 		_, was := pre[k]
 		if !was {
 			pre[k] = vclock.LastNs()
@@ -166,11 +169,13 @@ func VH_C20_Step() {
 		}
 	case 1: // Get
 		k := vhKeys[vh.Choice("key", n)]
+		t0 := vclock.LastNs()
 		v, err := c.Get(k)
 		_, was := pre[k]
 		vh.Assert((err == nil) == was, "C20.get")
 		if was {
 			vh.Assert(v != nil && v.id == k, "C20.get-value")
+			vh.Assert(vclock.Ns(c.entries[k].used) >= t0, "C20.get-counts-as-use")
 		}
 		vh.Assert(len(c.entries) == len(pre) && len(calls.log) == 0, "C20.get-pure")
 	case 2: // Delete
